@@ -447,6 +447,7 @@ class LoopMachine(Machine):
                     continue
                 step = None
                 okv = bool(cont0)
+                later = []
                 for s2 in cont0:
                     o2 = s2.objs.get(oid)
                     cell = o2.cells.get(key) if o2 is not None else None
@@ -455,10 +456,21 @@ class LoopMachine(Machine):
                         break
                     # (the path may have learnt the initial value, e.g. `last = (remaining == 1)`: compare under its knowledge)
                     l = lin_of(s2.canon(cell[1])).add(lin_of(s2.canon(init)), -1)
-                    if not l.is_const() or (step is not None and step != l.k):
+                    if not l.is_const():
+                        later.append((s2, l))       # decided by entailment once the step is known from another path
+                        continue
+                    if step is not None and step != l.k:
                         okv = False
                         break
                     step = l.k
+                if okv and later:
+                    if step is None:
+                        okv = False
+                    for s2, l in later:
+                        if not okv:
+                            break
+                        d1 = Lin(dict(l.co), l.k - step)
+                        okv = s2.entails_le0(d1) and s2.entails_le0(d1.scale(-1))
                 if okv and step:
                     cands[(oid, key)] = step
                 elif (getattr(self, 'debug_loops', False) or DEBUG):
